@@ -183,10 +183,11 @@ fn build(op: &Op) -> WorldRt {
         Op::ForEach(inner) => {
             let inner = inner.clone();
             let fe = callbag::for_each(|x: i64| call(CALL_FOREACH, x));
+            let pup = int_puppet(0);
             WorldRt {
                 subscribe: Some(Box::new(move |p| {
                     with(|ex| ex.probe(p).subscribed = true);
-                    let src: Src = Arc::new(int_puppet(p).source());
+                    let src: Src = Arc::new(pup.source());
                     let src = match &inner {
                         Some(op) => apply_unary(op, src),
                         None => src,
